@@ -59,7 +59,17 @@ def gen_config(rng):
         cls.append('hyperlinks')
     r = rng.random()
     if r < 0.12:
-        srcs.add(put('diff-so-fancy', True))
+        if rng.random() < 0.4:
+            # the emulation preset named as a feature instead of switched on by its flag
+            if rng.random() < 0.5:
+                cli['--features'] = 'diff-so-fancy'
+                srcs.add('cli')
+            else:
+                cfg_main.append(('features', 'diff-so-fancy'))
+                srcs.add('gitconfig')
+            cls.append('diff-so-fancy-named')
+        else:
+            srcs.add(put('diff-so-fancy', True))
         cls.append('diff-so-fancy')
     elif r < 0.24:
         srcs.add(put('diff-highlight', True))
